@@ -223,12 +223,14 @@ package vanguard
 // C10 / C08: bounded writers
 
 //@ func (*limitWriter).Write
-//@   requires l != nil && l.buf != nil && rwInv(l.rw)
+//@   preserves l != nil && l.buf != nil && rwInv(l.rw)
+//@   stable l.rw.endWritten
 //@   ensures[C10,C08] old(blen(l.buf)) + len(data) > l.limit ==> n == 0 && err != nil && l.rw.endWritten
 //@   ensures[C10,C08] old(blen(l.buf)) + len(data) <= l.limit ==> n == len(data) && err == nil && blen(l.buf) == old(blen(l.buf)) + len(data)
 //@   ensures[C10] old(blen(l.buf)) + len(data) <= l.limit ==> l.rw.endWritten == old(l.rw.endWritten)
-//@   ensures rwInv(l.rw) && l.buf == old(l.buf) && l.rw == old(l.rw) && l.limit == old(l.limit)
+//@   ensures l.buf == old(l.buf) && l.rw == old(l.rw) && l.limit == old(l.limit)
 //@   ensures l.rw.w == old(l.rw.w) && l.rw.headersWritten == old(l.rw.headersWritten) && (old(l.rw.endWritten) ==> l.rw.endWritten)
+//@   modifies #RWEND
 
 //@ func (*errorWriter).Write
 //@   requires e != nil && rwInv(e.rw)
@@ -249,10 +251,13 @@ package vanguard
 //@ pred validEW(w) = w != nil && rwInv(w.rw) && w.w != nil && sinkOK(w.w, w.rw) && (w.current == nil || sinkOK(w.current, w.rw))
 // ewInv: between calls, an initialised live writer is either passing bytes through (-1) or inside
 // an envelope (1..5 bytes outstanding) or inside a payload whose sink exists.
-//@ pred ewInv(w) = validEW(w) && (w.currentIsTrailer ==> w.rw.op.serverEnveloper != nil) && (w.initialized && w.err == nil ==>
+//@ pred relInv(w) = w.mustReleaseCurrent ==> w.current != nil && ((typeIs(w.current, *bytes.Buffer) && w.remainingBytes != -1) || (typeIs(w.current, *limitWriter) && w.rw.op.clientEnveloper != nil))
+//@ pred ewInv(w) = validEW(w) && (w.currentIsTrailer ==> w.rw.op.serverEnveloper != nil)
+//@ |  && relInv(w)
+//@ |  && (w.initialized && w.err == nil ==>
 //@ |    (w.remainingBytes == -1 && w.current != nil && !w.writingEnvelope)
 //@ | || (w.remainingBytes >= 0 && (w.writingEnvelope ==> 1 <= w.remainingBytes && w.remainingBytes <= 5)
-//@ |      && (!w.writingEnvelope ==> w.current != nil) && (w.writingEnvelope ==> !w.currentIsTrailer)))
+//@ |      && (!w.writingEnvelope ==> w.current != nil) && (w.writingEnvelope ==> !w.currentIsTrailer) && (w.remainingBytes != -1 && !w.currentIsTrailer ==> !w.mustReleaseCurrent)))
 
 //@ func (*envelopingWriter).writeBytes
 //@   requires validEW(w) && (w.writingEnvelope ==> 0 <= w.remainingBytes && w.remainingBytes <= 5) && (!w.writingEnvelope ==> w.current != nil)
@@ -272,22 +277,25 @@ package vanguard
 //@   modifies w.initialized, w.writingEnvelope, w.remainingBytes, w.current, w.mustReleaseCurrent, w.err, $vanguard.limitWriter., $map|, $elems|, $buf|, $connerr|
 
 //@ func (*envelopingWriter).handleEnvelopeWritten
-//@   requires validEW(w)
-//@   requires w.err == nil && w.initialized && !w.currentIsTrailer
+//@   requires validEW(w) && relInv(w)
+//@   requires w.err == nil && w.initialized && !w.currentIsTrailer && !w.mustReleaseCurrent
 //@   ensures[C09] err != nil ==> w.rw.endWritten || w.err != nil
 //@   ensures[C10] err == nil ==> w.remainingBytes >= 0 && w.remainingBytes <= 4294967295 && !w.writingEnvelope && w.current != nil
 //@   ensures[C10] err == nil && w.currentIsTrailer ==> w.remainingBytes <= limitOf(w.rw.op)
 //@   ensures validEW(w) && w.rw == old(w.rw) && w.initialized && (old(w.rw.endWritten) ==> w.rw.endWritten)
 //@   ensures err == nil ==> w.err == nil
 //@   ensures w.currentIsTrailer ==> w.rw.op.serverEnveloper != nil
+//@   ensures err != nil ==> w.current == old(w.current) && w.mustReleaseCurrent == old(w.mustReleaseCurrent) && w.remainingBytes == old(w.remainingBytes) && w.currentIsTrailer == old(w.currentIsTrailer)
+//@   ensures relInv(w) && (err == nil && !w.currentIsTrailer ==> !w.mustReleaseCurrent)
 //@   modifies w.writingEnvelope, w.current, w.mustReleaseCurrent, w.currentIsTrailer, w.trailerIsCompressed, w.remainingBytes, w.err, #RWEND
 
 //@ func (*envelopingWriter).handleTrailer
-//@   requires validEW(w)
+//@   requires validEW(w) && relInv(w)
 //@   requires w.current != nil && w.initialized
 //@   requires w.rw.op.serverEnveloper != nil
 //@   ensures[C09,C03] err == nil ==> w.rw.endWritten && w.err != nil
 //@   ensures validEW(w) && w.rw == old(w.rw) && w.initialized && (old(w.rw.endWritten) ==> w.rw.endWritten)
+//@   ensures relInv(w)
 //@   modifies w.mustReleaseCurrent, w.err, #RWEND
 
 //@ func (*envelopingWriter).Write
@@ -297,3 +305,10 @@ package vanguard
 //@   loop 1 invariant[C08] written >= 0 && written + len(data) == len(old(data))
 //@   loop 1 invariant ewInv(w) && w.initialized && w.remainingBytes != -1 && w.rw == old(w.rw) && (old(w.rw.endWritten) ==> w.rw.endWritten)
 //@   loop 1 decreases len(data), ite(w.writingEnvelope, 0, 1), ite(w.err == nil, 1, 0)
+
+//@ func (*envelopingWriter).Close
+//@   requires ewInv(w)
+//@   ensures[C09] r0 == nil && old(w.remainingBytes) > 0 && !(old(w.writingEnvelope) && old(w.remainingBytes) == 5) ==> w.rw.endWritten
+//@   ensures[C09] r0 == nil ==> w.err != nil && w.current == nil
+//@   ensures rwInv(w.rw) && w.rw == old(w.rw) && (old(w.rw.endWritten) ==> w.rw.endWritten)
+//@   ensures w.rw.w == old(w.rw.w) && w.rw.headersWritten == old(w.rw.headersWritten)
